@@ -58,6 +58,7 @@ type VC struct {
 	csHit         map[*CallSite]bool
 	indexTerms    []string
 	knownRefs     []string
+	privRefs      []string
 	rowFacts      int
 	funcCands     map[int]*ssa.Function
 	knownNumerals map[string]bool
@@ -295,7 +296,15 @@ func (vc *VC) allocObj(h *Heap, l *Layout) string {
 		sort.Strings(comps)
 		for _, c := range comps {
 			old := h.m[c]
-			h.m[c] = vc.define("H", heapSort(c), sto(old, r, fmt.Sprintf("((as const %s) %s)", innerSort(c), zeroOfSort(compSort(c)))))
+			nh := vc.define("H", heapSort(c), sto(old, r, fmt.Sprintf("((as const %s) %s)", innerSort(c), zeroOfSort(compSort(c)))))
+			h.m[c] = nh
+			// objects known by name existed before this allocation: their contents are unchanged
+			if len(vc.knownRefs) <= 10 && vc.rowFacts < 400 {
+				for _, kr := range vc.knownRefs {
+					vc.rowFacts++
+					vc.assume(sEq(sel(nh, kr), sel(old, kr)))
+				}
+			}
 		}
 	}
 	return r
@@ -324,8 +333,13 @@ func (vc *VC) havocAll(h *Heap, only map[string]bool) {
 		if only != nil && !only[c] {
 			continue
 		}
+		old := h.m[c]
 		h.m[c] = vc.fresh("H", heapSort(c))
 		vc.reassumeConsts(h, c)
+		// locals whose address never escapes cannot be written by anyone else
+		for _, pr := range vc.privRefs {
+			vc.assume(sEq(sel(h.m[c], pr), sel(old, pr)))
+		}
 	}
 	na := vc.fresh("alloc", "Int")
 	vc.assume(app(">=", na, h.alloc))
